@@ -19,6 +19,10 @@ CLAIMS = {
              note='solver-certified enumeration of a small discrete box (not a for-all over reals); dims 2 (3 once); <= 4 calls; 30 s termination bound; limits introduced later than make are only claimed when not below levels already present', tech=B),
  'C09': dict(engine='fpsym', text='the real loadConstructedPoints is driven with the arrival order and batch cuts of the whole target set derived from symbolic priorities/flags and with symbolic values; z3 enumerates permutation x partition classes and decides value identity and equality with the one-batch surrogate for all values in each class',
              note='reals instead of doubles; targets are full grids with <= 21 points; classes complete only where evidence says so, else budgeted; Wavelet with concrete values; one open known finding (Global/Fourier out-of-order tensors)', tech=B),
+ 'C11': dict(engine='fpsym', text='copies by all four routes of a source grid with symbolic values: every observable of the copy is decided to be the same expression as the restriction of the source (symbol identity, z3), then one side is mutated with fresh symbols and every observable of the other must keep its expression; ASan observes faults on the copied state',
+             note='reals instead of doubles; dims<=2, outputs<=3 with the listed sub-ranges; three history classes; Wavelet with concrete values', tech=B),
+ 'C14': dict(engine='fpsym', text='a table of documented misuses is issued on real grids (all families, five states) with symbolic values: the exception type is observed on the real control flow, every observable afterwards must be the identical expression (z3), ASan observes out-of-bounds accesses on error paths, a valid follow-up must succeed',
+             note='misuse arguments are the concrete ones of the table (the for-all is over grid values); garbage streams are short fixed strings; arbitrary byte tapes / all 32-bit scalars (engine A front-end harness) not built', tech=B),
  'C15': dict(engine='fpsym', text='bounded symbolic execution of the real SampleDREAM template with symbolic random stream over the closed [0,1], weights, pdf values and domain verdicts; z3 enumerates index-conversion / Metropolis / verdict classes (endpoint draws are constructed), ASan observes memory faults on each class representative, book-keeping identities are decided per class',
              note='reals instead of doubles on symbolic data, log/cos/sqrt uninterpreted; chains<=3, dims<=2, <=3 iterations; budgeted classes (complete only where evidence says so); acceptance draws assumed consumed in chain order after the batch evaluation', tech=B),
  'C19': dict(engine='fpsym', text='bounded symbolic execution of the real GradientDescent code with an SMT solver deciding every obligation for all callback values of each path class; classes enumerated by the solver up to a coverage certificate or the class budget',
